@@ -229,7 +229,7 @@ def one_case(ctx, e, ds, ib, iu, pos, ev_line, gen_line, fold_line):
             m = ("C", X.canon_text("ok " + gen_line[2:])[1])
         else:
             m = ("X", X.norm_py(gen_line[2:]))
-        if real_code != m:
+        if real_code != m and not X.constant_text_agrees(fold_line, gen_line, real_code):
             ok = False
             ctx.model_mismatch("K-gen sandbox routing", dict(case, kind="gen"), repr(m)[:500], repr(real_code)[:500], None)
     if ok:
